@@ -200,8 +200,11 @@ func c06Body(c *vk.Ctx, cs c06Case) {
 		if len(attempts) > 0 {
 			s.failf("c06.transmitted-although-refused", "the bundle had to be refused (delete-block %v, hop count %d+1 > limit %d: %v, expired by time %v / by age %v) but was handed to %s", deleteByBlock, cs.HopCount, cs.HopLimit, hopRefuse, expireByTime, expireByAge, attempts[0].Peer)
 		}
-		if (expireByTime || expireByAge) && s.storeHas(idv) {
-			// an expired bundle may also be dropped by the store-cleaning job
+		if (expireByTime || expireByAge || ambiguous) && s.storeHas(idv) {
+			// an expired bundle may also be dropped by the store-cleaning job - and a bundle that has to be refused for
+			// its hop count or a block, whose short lifetime has (perhaps) run out as well, cannot even be loaded for the
+			// attempt at which it would be refused: it then waits for that job. If its lifetime has not run out the
+			// job leaves it alone and the verdict below stands.
 			s.logf("store-cleaning tick")
 			s.tickClean()
 		}
